@@ -42,6 +42,10 @@ type vLogger struct {
 	onReceived func(name string)
 	// onParse is called whenever the stage replays the log
 	onParse func()
+	// onSearch is called when the stage starts a log search (which, in the real
+	// logger, reads day files without any stage lock held): a harness can let
+	// other things happen "while the search is in progress"
+	onSearch func(name string)
 }
 
 func (l *vLogger) Received(f sts.Received) {
@@ -52,6 +56,9 @@ func (l *vLogger) Received(f sts.Received) {
 }
 
 func (l *vLogger) WasReceived(name, hash string, after, before time.Time) bool {
+	if l.onSearch != nil {
+		l.onSearch(name)
+	}
 	for _, r := range l.records {
 		if l.visible(r, after) && r.name == name && (hash == "" || r.hash == hash) {
 			return true
